@@ -83,6 +83,20 @@ def generate(seed, tier, index):
         elif r < 0.88:
             # the driver hides / shows a switch at run time (element.enabled); the rule keeps counting hidden switches
             steps.append({"op": "d_eenable", "dev": "SW", "vec": v["name"], "el": rng.choice(names), "value": rng.random() < 0.5})
+        elif r < 0.905:
+            # the driver hides / shows the whole property or its group (a disconnected device hides its controls); driver-side
+            # assignments go on while it is hidden, and the rule holds there too - it is what gets published when it is shown again
+            if rng.random() < 0.5:
+                # hidden, assigned to while hidden, shown again
+                steps.append({"op": "d_venable", "dev": "SW", "vec": v["name"], "value": False})
+                for _ in range(rng.randint(1, 3)):
+                    steps.append(rng.choice([{"op": "d_bool", "dev": "SW", "vec": v["name"], "el": rng.choice(names), "value": rng.random() < 0.7},
+                                             {"op": "d_select", "dev": "SW", "vec": v["name"], "el": rng.choice(names)}]))
+                steps.append({"op": "d_venable", "dev": "SW", "vec": v["name"], "value": True})
+            elif rng.random() < 0.6:
+                steps.append({"op": "d_venable", "dev": "SW", "vec": v["name"], "value": rng.random() < 0.5})
+            else:
+                steps.append({"op": "d_genable", "dev": "SW", "group": "MAIN", "value": rng.random() < 0.5})
         elif r < 0.94:
             steps.append({"op": "gap", "dt": rng.choice([0.0, 0.001, 0.1, 2.0])})
             if rng.random() < 0.5:
@@ -253,6 +267,10 @@ def execute(scen):
                 continue
             if op == "start_client":
                 apply_step(stack, st)
+                continue
+            if op in ("d_venable", "d_genable"):
+                apply_step(stack, st)
+                probes["property_hidden_or_shown_at_run_time"] = probes.get("property_hidden_or_shown_at_run_time", 0) + 1
                 continue
             if op == "d_eenable":
                 apply_step(stack, st)
